@@ -40,6 +40,7 @@ SEMANTIC = [  # (query, equivalent query)
     ("$..[?@.k in [1, 2]]", "$..[?[1, 2] contains @.k]"), ("$[?@.xs[?@ in [1]]]", "$[?@.xs[?[1] contains @]]"),
 ]
 CTX_QUERIES = ["$[?@.a == _.x]", "$[?_.flag]", "$[?@[?@ == _.x.y]]", "$[?$.a[?@ == _.v]]", "$..[?@.k == _.v]", "$[?@.xs[?@.ys[?@ == _.v]]]", "$[?_.list contains @.a]", "$[?@.a in _.list]",
+               "$..xs[?@.k == _.v]", "$..[?@.ys[?@ == _.v]]", "$.xs..[?@ == _.v]", "$..*[?@ == _.x.y]", "$..a..[?@ == _.x.y]", "$..[?@.a == _.x.y].b", "$[*]..[?@ == _.v]",
                "$[0, ?_.flag]", "$[?count(_.list[*]) == 2 && @.a]", "$[?length(_.x) == 1 || @.k == _.v]"]
 KEY_QUERIES = ["$.~", "$[~]", "$..~", "$.a.~", "$[*].~", "$[~, a]", "$..[~]", "$.xs[*].~", "$[?@.~]"]
 HASH_QUERIES = ["$[?# == 'a']", "$[?# == 0]", "$[?# > 0]", "$..[?# == 'k']", "$[?# in ['a', 'b']]", "$[?@[?# == 1]]", "$[?# == 'a' && @ == 1]", "$.xs[?# == 1]", "$[0, ?# == 'b']"]
@@ -157,6 +158,13 @@ def evaluate(ctx, cases):
                 want = [core.canon(v) for v in ch if isinstance(v, dict) and isinstance(v.get("s"), str) and rx.fullmatch(v["s"])]
             if [v for _, v in got["ok"]] != want:
                 ctx.violation("`=~` is a full regular-expression match honouring its flags", inp, [v for _, v in got["ok"]], want)
+        elif kind == "ctx" and extra == qpool.CONTEXTS[1] and c["text"].replace("_.x.y", "1").replace("_.v", "2") != c["text"] and "_" not in c["text"].replace("_.x.y", "1").replace("_.v", "2"):
+            # a singular filter-context query naming a number means that number, wherever the filter sits
+            std = c["text"].replace("_.x.y", "1").replace("_.v", "2")
+            want = _vals(jsonpath.compile(std), doc, extra)
+            if want != got:
+                ctx.violation("the filter-context identifier reads the caller-supplied mapping at any nesting depth, also after descendant segments",
+                              {**inp, "equivalent": std}, got["ok"][:6], want.get("ok", want)[:6] if "ok" in want else want)
         elif kind == "ctx" and c["text"] == "$[?@.a == _.x]":
             ch = list(doc.values()) if isinstance(doc, dict) else (doc if isinstance(doc, list) else [])
             has = "x" in extra
